@@ -23,11 +23,15 @@
 //	c.Crash(n) / c.Restart(n)                // close without snapshot, port dark, conns dropped / reopen same dir+addr+id
 //	c.IsolateLeader() ...                    // nemesis helpers return a description; c.Net gives the raw fault API
 //	c.Live()                                 // nodes currently up
+//	c.Lost()                                 // >0: some Store.Close timed out (raft deadlock), end the case as inconclusive
 //
 //	vnode.Exec(sql...) / vnode.QueryReq(level, sql...) / vnode.EQReq(level, sql...)  // request builders
 //	vnode.RowsString(rows)                   // canonical text of query results
 //	vnode.Raft(n)                            // term/commit/applied/fsm_pending from Store.Stats()
 //	vnode.Config(n)                          // sorted "id@addr/role" raft configuration as n sees it
+//
+// If Store.Close hangs (raft pipeline deadlock under heavy load, see ErrCloseTimeout) Stop/Crash return
+// ErrCloseTimeout after CloseTimeout and the node is abandoned; Restart of it fails.
 //
 // Soundness notes for users: every wait helper returns a "did not happen in
 // time" result instead of failing; callers must treat that as inconclusive.
@@ -110,9 +114,10 @@ type Node struct {
 	Proxy   *proxy.Proxy
 	Mux     *tcp.Mux
 
-	ln   net.Listener
-	up   bool
-	opts Options
+	ln        net.Listener
+	up        bool
+	abandoned bool // Store.Close timed out; the data directory is still locked
+	opts      Options
 }
 
 // Up reports whether the node is running.
@@ -126,6 +131,9 @@ type Cluster struct {
 	Dir   string
 	Opts  Options
 	Nodes []*Node // every node ever started, in start order (restarts replace in place)
+
+	lostMu sync.Mutex
+	lost   []string // data directories of abandoned nodes (still locked)
 }
 
 // NewCluster creates an empty cluster whose node directories live under dir.
@@ -174,6 +182,14 @@ func (c *Cluster) StartDir(name, id, dir string, o Options) (*Node, error) {
 	if old := c.Node(name); old != nil && old.up {
 		return nil, fmt.Errorf("vnode: %s already running", name)
 	}
+	c.lostMu.Lock()
+	for _, d := range c.lost {
+		if d == dir {
+			c.lostMu.Unlock()
+			return nil, ErrCloseTimeout // opening the locked raft log would block forever
+		}
+	}
+	c.lostMu.Unlock()
 	if err := os.MkdirAll(dir, 0o755); err != nil {
 		return nil, err
 	}
@@ -361,6 +377,21 @@ func (c *Cluster) Stop(n *Node) error { return c.down(n) }
 // snapshot. (Un-synced file data is not lost; that is the crash group's job.)
 func (c *Cluster) Crash(n *Node) error { return c.down(n) }
 
+// ErrCloseTimeout is returned when Store.Close did not return within
+// CloseTimeout. Seen under heavy load: hashicorp/raft v1.7.3 can deadlock in
+// pipeline replication (replicate goroutine blocked in netPipeline.AppendEntries
+// after its decoder quit), after which Raft.Shutdown().Error() never returns.
+// The node is then abandoned (its goroutines and file locks leak until the
+// process exits) and cannot be restarted; callers treat the case as
+// inconclusive.
+var ErrCloseTimeout = errors.New("vnode: store did not close in time (node abandoned)")
+
+// CloseTimeout bounds Store.Close in Stop/Crash/Close.
+var CloseTimeout = 30 * time.Second
+
+// QuietBeforeClose is the pause between cutting a node off and closing its store.
+var QuietBeforeClose = 100 * time.Millisecond
+
 func (c *Cluster) down(n *Node) error {
 	if n == nil || !n.up {
 		return nil
@@ -368,17 +399,45 @@ func (c *Cluster) down(n *Node) error {
 	n.up = false
 	n.ln.Close()
 	c.Net.DropNode(n.Name)
-	err := n.Store.Close(true)
+	// Quiet period: the node no longer receives anything, let RPC handlers that are already
+	// running finish. Without it a heartbeat of a higher term that passed raft's shutdown check
+	// just before Store.Close can reach setCurrentTerm after rqlite closed the bolt store and
+	// panic the whole process ("failed to save current term: database not open"; seen about once
+	// per 1000 cases at load average 100-200).
+	time.Sleep(QuietBeforeClose)
+	done := make(chan error, 1)
+	go func() { done <- n.Store.Close(true) }()
+	var err error
+	select {
+	case err = <-done:
+	case <-time.After(CloseTimeout):
+		n.abandoned = true
+		err = ErrCloseTimeout
+		c.lostMu.Lock()
+		c.lost = append(c.lost, n.Dir)
+		c.lostMu.Unlock()
+	}
 	n.Service.Close()
 	n.Mux.Close()
 	c.Net.DropNode(n.Name)
 	return err
 }
 
+// Lost returns the number of nodes abandoned because Store.Close timed out. A
+// case that sees Lost() > 0 should end as inconclusive.
+func (c *Cluster) Lost() int {
+	c.lostMu.Lock()
+	defer c.lostMu.Unlock()
+	return len(c.lost)
+}
+
 // Restart reopens a stopped/crashed node on the same directory, address and ID.
 func (c *Cluster) Restart(n *Node) (*Node, error) {
 	if n.up {
 		return n, nil
+	}
+	if n.abandoned {
+		return nil, ErrCloseTimeout
 	}
 	return c.StartDir(n.Name, n.ID, n.Dir, n.opts)
 }
@@ -398,6 +457,7 @@ func (c *Cluster) Close() {
 	for _, n := range c.Nodes {
 		if n.up {
 			n.ln.Close()
+			c.Net.DropNode(n.Name)
 		}
 	}
 	var wg sync.WaitGroup
